@@ -4,6 +4,15 @@ import json, os
 V = os.path.dirname(os.path.dirname(os.path.abspath(__file__)))
 
 CHECKS = {
+ "C10": dict(
+    technique="runtime differential: independent reader vs loaded bundled registry; truth-by-construction + observational equivalence of loading paths on generated files; ill-formed corpus must raise",
+    text="Every unit, spelling, symbol, prefix, dimension, converter parameter, group, system, context and default of the bundled files is compared with what an independent "
+         "reader derives (3 numeric types, literal types observed). Generated files (units, prefixes, derived dimensions, offset units, a group, a system, a context) are loaded "
+         "through line list, shuffled lines, shuffled file, define() statement by statement, cold and warm disk cache in float/Decimal/Fraction and 4 layouts; a probe battery "
+         "(names, symbols, dimensions, exact factors, offset conversions, compatible sets, members, system base units, context conversions) is compared with construction truth and across paths. "
+         "33 ill-formed inputs x 2 paths x 3 types must raise at load or first use.",
+    note="only unit/prefix lines are permuted; any exception class counts as 'raises'; one recorded finding (define() path and compatible-unit index)",
+    ref="4/C10"),
  "C14": dict(
     technique="runtime oracle: reference-model closure/members/allowed-base-set/exact factors vs real systems and groups; reference tracker over edit histories; fresh-twin comparison after default_system changes",
     text="Every canonical unit x every declared system (and none) is sent through get_base_units(system=) and to_base_units under that default system; the result must use only "
